@@ -25,16 +25,28 @@ CLEANUP_DUR = %(findur)r
 # hard kill at the n-th call of an os primitive of THIS process (C13: a kill inside file_store.dump)
 _k = os.environ.get('JUGV_KILL_AT')
 if _k:
+    import sys as _sys
     _fn, _n = _k.split(':')
     _cnt = [0]
-    _orig = getattr(os, _fn)
 
-    def _interposed(*a, **kw):
-        _cnt[0] += 1
-        if _cnt[0] == int(_n):
-            os.kill(os.getpid(), 9)
-        return _orig(*a, **kw)
-    setattr(os, _fn, _interposed)
+    def _interpose(_name):
+        _orig = getattr(os, _name)
+
+        def _interposed(*a, **kw):
+            _cnt[0] += 1
+            if _cnt[0] == int(_n):
+                os.kill(os.getpid(), 9)
+            return _orig(*a, **kw)
+        setattr(os, _name, _interposed)
+        # ... and wherever jug holds the primitive under a global of its own (from os import rename)
+        for _mn, _m in list(_sys.modules.items()):
+            if _m is not None and (_mn == 'jug' or _mn.startswith('jug.')):
+                for _g, _v in list(vars(_m).items()):
+                    if _v is _orig:
+                        setattr(_m, _g, _interposed)
+    # 'rename' = the publishing step of file_store.dump, whichever of os.rename / os.replace it uses (one shared counter)
+    for _name in {'rename': ('rename', 'replace'), 'fsync': ('fsync',)}.get(_fn, (_fn,)):
+        _interpose(_name)
 
 
 def _rec(kind, i):
@@ -289,10 +301,19 @@ def one_run(rng, mode, params=None):
             if params['when'] == 'in-dump':
                 # the victim kills itself (SIGKILL) at the n-th os.fsync / os.rename it performs, i.e. inside file_store.dump between the
                 # creation of the temporary file and the rename
-                for k in range(params['nworkers']):
-                    procs.append(start_worker(root, opts=params['opts'], env_extra={'JUGV_KILL_AT': params['kill_at']} if k == params['victim'] else None))
-                victim = procs[params['victim']]
-                victim.wait(90)
+                # the victim first; the others join once it is inside its first task (otherwise a fast survivor could finish everything
+                # before the victim has even imported jug, and the kill point would never be reached)
+                victim = start_worker(root, opts=params['opts'], env_extra={'JUGV_KILL_AT': params['kill_at']})
+                procs.append(victim)
+                t_end = time.time() + 30
+                while time.time() < t_end and victim.poll() is None and not any(pid == victim.pid for k, pid, i, ts in read_log(root)):
+                    time.sleep(0.01)
+                for k in range(params['nworkers'] - 1):
+                    procs.append(start_worker(root, opts=params['opts']))
+                try:
+                    victim.wait(90)
+                except subprocess.TimeoutExpired:
+                    pass
                 delivered = victim.returncode == -signal.SIGKILL
             elif params['when'] == 'in-wait-loop':
                 p0 = start_worker(root, opts=params['opts'])
@@ -451,6 +472,11 @@ def _runs(ck, n, modes, presets=()):
         if _timed_out(found):                   # a loaded machine: once more before it counts
             ck.count('process-run:retried after a timeout')
             params, found = one_run(ck.rng, mode, {k: params[k] for k in ('shape', 'dur', 'nworkers', 'victim', 'when', 'delay', 'nth', 'opts', 'signals', 'kill_at', 'store')})
+        if i < len(presets) and params['when'] == 'in-dump' and not params.get('delivered'):
+            # a deterministic kill point that did not fire: once more, then it is a hole in the check (e.g. the publishing primitive changed)
+            params, found = one_run(ck.rng, mode, {k: params[k] for k in ('shape', 'dur', 'nworkers', 'victim', 'when', 'delay', 'nth', 'opts', 'signals', 'kill_at', 'store')})
+            if not params.get('delivered'):
+                ck.broken.append('coverage lost: the kill point %s inside file_store.dump was never reached (preset %d)' % (params['kill_at'], i))
         ck.count('process-run:%s:store %s' % (mode, params['store']))
         ck.count('process-run:%s:%s:%s' % (mode, params['when'], ('delivered' if params.get('valid_instant') else 'delivered at an instant outside the property (not judged)')
                                            if params.get('delivered') else 'too-late'))
